@@ -376,3 +376,43 @@ pub mod pstate {
         C.fetch_add(1, Ordering::Relaxed) ^ (std::time::SystemTime::now().duration_since(std::time::UNIX_EPOCH).map(|d| d.as_nanos() as u64).unwrap_or(0) << 16)
     }
 }
+
+/// Sanitizer lanes (thorough tier): run a lane script, fold its status into the evidence.
+/// A report inside the lane is a violation of the property whose workload produced it; a lane
+/// that cannot run is recorded as unavailable and never changes the behavioural verdict.
+pub mod lanes {
+    use serde_json::json;
+    use std::process::Command;
+    use vkit::Monitor;
+
+    pub fn run(mon: &Monitor, lane: &str, arg: &str, extra_arg: &str) {
+        if mon.quick() || std::env::var("VERIF_NO_LANES").is_ok() {
+            return;
+        }
+        let script = mon.root.join("sanit").join(format!("{lane}_lane.sh"));
+        let t0 = std::time::Instant::now();
+        let mut cmd = Command::new("bash");
+        cmd.arg(&script).arg(arg);
+        if !extra_arg.is_empty() {
+            cmd.arg(extra_arg);
+        }
+        let out = cmd.output();
+        let (status, line, tail) = match out {
+            Err(e) => ("unavailable".to_string(), format!("spawn failed: {e}"), String::new()),
+            Ok(o) => {
+                let txt = String::from_utf8_lossy(&o.stdout).to_string();
+                let line = txt.lines().rev().find(|l| l.starts_with("LANE ")).unwrap_or("").to_string();
+                let status = line.split_whitespace().find_map(|w| w.strip_prefix("status=")).unwrap_or("unavailable").to_string();
+                let tail: String = txt.lines().rev().skip(1).take(40).collect::<Vec<_>>().into_iter().rev().collect::<Vec<_>>().join("\n");
+                (status, line, tail)
+            }
+        };
+        let rec = json!({"lane": lane, "workload": arg, "status": status, "wall_s": t0.elapsed().as_secs_f64(), "summary": line});
+        let key = format!("sanitizer_lane.{lane}.{arg}");
+        mon.extra(&key, rec);
+        mon.count(&format!("lanes.{lane}.{status}"), 1);
+        if status == "report" {
+            mon.violation(&format!("sanitizer/{lane}/{arg}"), json!({"summary": line, "report_tail": tail}));
+        }
+    }
+}
